@@ -14,7 +14,8 @@ SPEC = {
         "rule sets use consecutive blocks of distinct namespaces; conditions that make the implementation panic (WASM traps, property C05) are counted in the distribution and excluded",
         "the tie between Sem.v and the compiler/scanner is differential (K over generated rule sets), except for the operator binding powers, which are regenerated from parser/src/ast/cst2ast.rs and conditions.md on every run",
     ],
-    "trusted_base": ["Gen/BindingPower.v, Gen/DocPrecedence.v: regenerated from parser/src/ast/cst2ast.rs (binding_power closure) and site/content/docs/writing_rules/conditions.md (operator table)",
+    "trusted_base": ["harness/src/cond_gen.rs parse_ir: reads the text `impl Debug for IR` prints (kinds, attributes, indentation) and applies the two normalisations listed in Cond/IrTree.v",
+                     "Gen/BindingPower.v, Gen/DocPrecedence.v: regenerated from parser/src/ast/cst2ast.rs (binding_power closure) and site/content/docs/writing_rules/conditions.md (operator table)",
                      "harness/src/cond_gen.rs: generator, YARA printer with minimal parentheses, Coq printer"],
 }
 
@@ -32,6 +33,11 @@ FINGERPRINTS = {
     5: "C02:regression:lazy-pattern-search-skipped(verdicts-change-when-the-search-is-forced)",
     9: "C02:emitted-code-model(Cond/Emit.v on Cond/Machine.v)-differs-from-documented-meaning",
     8: "C02:verdict-with-forced-pattern-search-differs-from-documented-meaning",
+    10: "C02:IR-built-by-the-compiler-differs-from-predicted-tree(Cond/IrTree.v)",
+}
+KINDS = {
+    9: "the verdicts agree with the documented meaning, but the model of the emitted code (Cond/Emit.v on Cond/Machine.v) computes another verdict: emit.rs and its model have drifted apart",
+    10: "the verdicts agree with the documented meaning, but the IR dumped by Compiler::set_ir_writer is not the tree Cond/IrTree.v predicts (typing of identifiers, constant folding, slot allocation): ast2ir.rs / ir/mod.rs and their model have drifted apart; compare `ir_dump` in the replay with `Eval vm_compute in ir_of <cond>`",
 }
 
 
@@ -41,7 +47,7 @@ def explain_batch(drv, casedir, cases):
     for k in range(0, len(cases), 40):
         chunk = cases[k:k + 40]
         name = f"TmpExplain{k}"
-        src = ("From Coq Require Import List NArith ZArith Bool.\nFrom YV Require Import Cond.Syntax Cond.Sem Cond.RuleSet Cond.Check.\n"
+        src = ("From Coq Require Import List NArith ZArith Bool.\nFrom YV Require Import Cond.Syntax Cond.Sem Cond.RuleSet Cond.IrTree Cond.Check.\n"
                "Import ListNotations.\nOpen Scope Z_scope.\nDefinition cs := [\n" + ";\n".join("(" + c["coq"] + ")" for c in chunk) +
                "\n].\nEval vm_compute in (map explain cs).\n"
                "Eval vm_compute in (map (fun c => eval_ruleset (c_data c) (c_globals c) (c_rules c)) cs).\n")
@@ -99,7 +105,7 @@ def run_k(run, tier, seed, drv):
         c = {k: v for k, v in c.items() if k != "coq"}
         c["replay_cmd"] = "harness c02 --replay <this file>"
         info["violations"].append({"fingerprint": fp, "tag": hashlib.sha1((fp + c.get("source", "")).encode()).hexdigest()[:10],
-                                   "kind": "the implementation's verdicts differ from the documented meaning of the conditions (Cond/Sem.v)",
+                                   "kind": KINDS.get(c.get("explain"), "the implementation's verdicts differ from the documented meaning of the conditions (Cond/Sem.v)"),
                                    "cases_with_this_fingerprint": len(cs), "case": c})
     info["k_disagreements"] = len(failing)
     info["s_violations"] = len(failing)
